@@ -15,11 +15,11 @@ import (
 func init() {
 	register(&Rule{ID: "MAT-1", Props: []string{"C01", "C02", "C10"}, Floor: 5,
 		Doc: "the argument vector is immutable during backtracking: no element store, copy destination or append base is a []string that is not freshly made in the same function", Run: mat1})
-	register(&Rule{ID: "MAT-2", Props: []string{"C02", "C09", "C13", "C15"}, Floor: 8,
+	register(&Rule{ID: "MAT-2", Props: []string{"C02", "C09", "C13", "C15"}, Floor: 3,
 		Doc: "every string recorded into the context is a sub-slice of a command-line token or the literal \"true\"; the positional matcher records exactly args[0] and returns args[1:]", Run: mat2})
 	register(&Rule{ID: "MAT-3", Props: []string{"C01", "C09"}, Floor: 4,
 		Doc: "every matcher consults the options-ended flag", Run: mat3})
-	register(&Rule{ID: "MAT-4", Props: []string{"C12", "C01"}, Floor: 8,
+	register(&Rule{ID: "MAT-4", Props: []string{"C12", "C01"}, Floor: 2,
 		Doc: "every non-matching exit of the option matcher yields the env flag with the vector unchanged; a true verdict carries a matched sub-call's vector", Run: mat4})
 	register(&Rule{ID: "MAT-5", Props: []string{"C12"}, Floor: 2,
 		Doc: "consuming an occurrence never consults the env flag", Run: mat5})
@@ -27,7 +27,7 @@ func init() {
 		Doc: "the group matcher excludes an env-backed option only after a match that recorded no value for it", Run: mat6})
 	register(&Rule{ID: "MAT-7", Props: []string{"C10", "C11", "C02", "C01"}, Floor: 6,
 		Doc: "a foreign occurrence is skipped over exactly the tokens an own occurrence of that form consumes; an own match reports the number of tokens it dropped", Run: mat7})
-	register(&Rule{ID: "MAT-8", Props: []string{"C10", "C19"}, Floor: 7,
+	register(&Rule{ID: "MAT-8", Props: []string{"C10", "C19"}, Floor: 3,
 		Doc: "sibling guards: own option only; empty '=' value is no match; separate value starting with '-' is no match; a flag (IsBool of the looked-up option) records \"true\"", Run: mat8})
 	register(&Rule{ID: "MAT-11", Props: []string{"C11", "C01"}, Floor: 4,
 		Doc: "group retry: (false, input) if the first try fails, else try again on each new vector until a try fails, returning the last vector", Run: mat11})
@@ -456,14 +456,33 @@ func lenZeroH(fn *ssa.Function, holds func(ssa.Value, bool) bool) bool {
 	found := false
 	ir.Instrs(fn, func(in ssa.Instruction) {
 		bo, ok := in.(*ssa.BinOp)
-		if !ok || bo.Op != token.EQL {
+		if !ok || found {
 			return
 		}
-		if z, isC := ir.ConstInt(bo.Y); !isC || z != 0 {
+		k, isC := ir.ConstInt(bo.Y)
+		if !isC {
 			return
 		}
-		if lc, isCall := bo.X.(*ssa.Call); isCall {
-			if bi, isB := lc.Call.Value.(*ssa.Builtin); isB && bi.Name() == "len" && holds(bo, true) {
+		lc, isCall := bo.X.(*ssa.Call)
+		if !isCall {
+			return
+		}
+		if bi, isB := lc.Call.Value.(*ssa.Builtin); !isB || bi.Name() != "len" {
+			return
+		}
+		for _, want := range []bool{true, false} {
+			// the outcome `want` is possible for length 0 and impossible for lengths 1, 2, 3
+			z, okZ := lenCmp(bo.Op, 0, k)
+			if !okZ || z != want {
+				continue
+			}
+			only := true
+			for n := int64(1); n <= 3; n++ {
+				if t, _ := lenCmp(bo.Op, n, k); t == want {
+					only = false
+				}
+			}
+			if only && holds(bo, want) {
 				found = true
 			}
 		}
@@ -496,9 +515,16 @@ func mat4(c *Ctx) {
 		}
 	}
 	recv := fn.Params[0]
+	nUnchanged, nMatched := 0, 0
+	defer func() {
+		if nUnchanged == 0 || nMatched == 0 {
+			c.Bad(Q(fn)+":exits", fn.Pos(), "expected at least one non-matching exit and one matching exit, found %d and %d", nUnchanged, nMatched)
+		}
+	}()
 	for i, r := range ir.ReturnPoints(fn) {
 		verdict, vec := r.Results[0], r.Results[1]
 		if vec == ssa.Value(args) {
+			nUnchanged++
 			key := fmt.Sprintf("%s:exit#%d[unchanged]", Q(fn), i)
 			good := false
 			if b, f, ok := ir.FieldLoad(verdict); ok && f == "ValueSetFromEnv" {
@@ -519,8 +545,32 @@ func mat4(c *Ctx) {
 					}
 				}
 			}
+			// the two sub-matcher calls merged: vec = phi[call_i #k], tested verdict = phi[call_i #0] of the same join
+			if calls, _ := extractPhi(vec); calls != nil {
+				vp := vec.(*ssa.Phi)
+				for _, in := range vp.Block().Instrs {
+					mp, isPhi := in.(*ssa.Phi)
+					if !isPhi || mp == vp {
+						continue
+					}
+					mc, idx := extractPhi(mp)
+					if mc == nil || idx != 0 || len(mc) != len(calls) {
+						continue
+					}
+					same := true
+					for i := range mc {
+						if mc[i] != calls[i] {
+							same = false
+						}
+					}
+					if same && r.Holds(mp, true) {
+						good = true
+					}
+				}
+			}
 		}
 		c.Check(good, key, r.Pos(), "a true verdict carries the vector of the sub-matcher that matched", "a return with a changed vector is not `true` with the vector of a matched sub-call")
+		nMatched++
 	}
 }
 
@@ -1394,6 +1444,35 @@ func positiveStep(phi *ssa.Phi, v ssa.Value, pred *ssa.BasicBlock) string {
 		}
 		return "a back edge adds a non-positive constant"
 	}
+	// step = the count of whichever of several sub-calls was made (merged branches)
+	if calls, idx := extractPhi(bo.Y); calls != nil {
+		for _, call := range calls {
+			f := ir.Static(call)
+			if f == nil {
+				return "the step comes from an unresolved call"
+			}
+			for _, r := range ir.ReturnPoints(f) {
+				k, isC := ir.ConstInt(r.Results[idx])
+				if !isC || k < 0 {
+					return fmt.Sprintf("%s can return a non-constant or negative count", f.Name())
+				}
+			}
+		}
+		zeroOut := false
+		for _, u := range *bo.Y.Referrers() {
+			if cmp, ok := u.(*ssa.BinOp); ok {
+				if z, isC := ir.ConstInt(cmp.Y); isC && z == 0 && cmp.X == bo.Y {
+					if (cmp.Op == token.EQL && ir.HoldsAt(cmp, false, pred)) || (cmp.Op == token.NEQ && ir.HoldsAt(cmp, true, pred)) || (cmp.Op == token.GTR && ir.HoldsAt(cmp, true, pred)) {
+						zeroOut = true
+					}
+				}
+			}
+		}
+		if !zeroOut {
+			return "the scan can go round with a step of 0 (no progress)"
+		}
+		return ""
+	}
 	// step = int result of a call whose possible values are constants >= 0, with 0 excluded on this path
 	ex, isEx := bo.Y.(*ssa.Extract)
 	if !isEx {
@@ -1468,4 +1547,27 @@ func strNonEmptyAt(fn *ssa.Function, v ssa.Value, b *ssa.BasicBlock) bool {
 		}
 	})
 	return found
+}
+
+// extractPhi: v is a phi every edge of which is result #idx of a (different) call: returns the calls in
+// edge order.
+func extractPhi(v ssa.Value) (calls []*ssa.Call, idx int) {
+	phi, ok := v.(*ssa.Phi)
+	if !ok || len(phi.Edges) < 2 {
+		return nil, 0
+	}
+	idx = -1
+	for _, e := range phi.Edges {
+		ex, isEx := e.(*ssa.Extract)
+		if !isEx {
+			return nil, 0
+		}
+		call, isCall := ex.Tuple.(*ssa.Call)
+		if !isCall || (idx >= 0 && ex.Index != idx) {
+			return nil, 0
+		}
+		idx = ex.Index
+		calls = append(calls, call)
+	}
+	return calls, idx
 }
